@@ -4,7 +4,7 @@ use crate::mon::c08::{bits, norm2, Solver, Sys, SOLVERS};
 use crate::mon::common::*;
 use crate::rng::Rng;
 use crate::run::{catch, par_run, Ctx, Outcome, Report, Stats};
-use ohsl::Vector;
+use ohsl::{Sparse, Vector};
 
 const TAG: u64 = 0xC09;
 const MARGINS: [f64; 4] = [0.02, 0.1, 0.5, 2.0];
@@ -41,6 +41,19 @@ fn direct_solution(d: &Vec<Vec<f64>>, b: &[f64]) -> Option<Vec<f64>> {
     catch(|| m.solve_basic(&Vector::create(b.to_vec()))).ok().map(|v| v.vec).filter(|v| fl::all_finite(v))
 }
 
+/// ||x - y||_2 / ||y||_2, formed after both vectors are brought to O(1) by an exact power of two (no overflow for entries
+/// in the top binade)
+fn rel_dist(x: &[f64], y: &[f64]) -> f64 {
+    let m = y.iter().chain(x).fold(0.0f64, |m, v| m.max(v.abs()));
+    if m == 0.0 || !m.is_finite() { return if m == 0.0 { 0.0 } else { f64::NAN }; }
+    let e = -(m.log2().floor() as i32);
+    let sc = |v: f64| v * 2f64.powi(e / 2) * 2f64.powi(e - e / 2);
+    let (xs, ys): (Vec<f64>, Vec<f64>) = (x.iter().map(|v| sc(*v)).collect(), y.iter().map(|v| sc(*v)).collect());
+    let ny = norm2(&ys);
+    let dn = norm2(&xs.iter().zip(&ys).map(|(p, q)| p - q).collect::<Vec<_>>());
+    if ny == 0.0 { dn } else { dn / ny }
+}
+
 fn frob(d: &Vec<Vec<f64>>) -> f64 { norm2(&d.iter().flatten().copied().collect::<Vec<f64>>()) }
 
 fn convergence_case(st: &mut Stats, rng: &mut Rng) {
@@ -55,8 +68,19 @@ fn convergence_case(st: &mut Stats, rng: &mut Rng) {
     let mk_rhs = |rng: &mut Rng| -> (Vec<f64>, Vec<f64>) {
         // right-hand sides of any scale: the planted solution (hence b) is scaled over 120 decades
         let sc = *rng.pick(&[1.0, 1e8, 1e-8, 1e3, 1e-18, 1e-30, 1e-60, 1e30, 1e60, 1e-80, 1e80, 2f64.powi(-510), 2f64.powi(-530), 1e-140, 1e140, 1e-200, 1e200]);
-        let xs: Vec<f64> = (0..n).map(|_| rng.sym() * sc).collect();
-        let b: Vec<f64> = (0..n).map(|i| (0..n).map(|j| d[i][j] * xs[j]).sum()).collect();
+        let mut xs: Vec<f64> = (0..n).map(|_| rng.sym() * sc).collect();
+        let mut b: Vec<f64> = (0..n).map(|i| (0..n).map(|j| d[i][j] * xs[j]).sum()).collect();
+        // now and then the whole problem is moved (by an exact power of two) so that the largest |b_i| lies in the TOP binade
+        // [2^1023, 2^1024) or just above the subnormal range: "right-hand sides of any scale" includes the ends of the range
+        if rng.chance(0.06) {
+            let bm = b.iter().fold(0.0f64, |m, v| m.max(v.abs()));
+            if bm > 0.0 && bm.is_finite() {
+                let e = if rng.bool() { 1023 - bm.log2().floor() as i32 } else { -1000 - bm.log2().floor() as i32 };
+                let sh = |v: f64| v * 2f64.powi(e / 2) * 2f64.powi(e - e / 2);
+                let (xs2, b2): (Vec<f64>, Vec<f64>) = (xs.iter().map(|v| sh(*v)).collect(), b.iter().map(|v| sh(*v)).collect());
+                if xs2.iter().chain(&b2).all(|v| v.is_finite()) && xs2.iter().all(|v| *v == 0.0 || v.abs() > 1e-290) { xs = xs2; b = b2; }
+            }
+        }
         (xs, b)
     };
     let (xs, b) = mk_rhs(rng);
@@ -81,11 +105,13 @@ fn convergence_case(st: &mut Stats, rng: &mut Rng) {
                 st.max(&format!("iterations_over_n_plus_10:{}", sv.name()), it as f64 / (n as f64 + 10.0));
                 if !fl::all_finite(&x.vec) { st.violation(&format!("C09:{}:ok-nonfinite", sv.name()), format!("x={:?}; {}", x.vec, desc())); continue; }
                 // agreement with the direct dense solution
-                let err = norm2(&x.vec.iter().zip(&xd).map(|(p, q)| p - q).collect::<Vec<_>>());
-                let drift = crate::mon::c08::drift_units(sv) * U * (it as f64 + 1.0) * (sys.frob() * norm2(&x.vec).max(norm2(&x0)) + norm2(&b)) / norm2(&b).max(f64::MIN_POSITIVE);
-                let bound = 4.0 * (kf * (tol + drift) + 8.0 * n as f64 * kf * U) * norm2(&xd);
+                // (everything in relative form: no overflow at the ends of the range)
+                let err = rel_dist(&x.vec, &xd);
+                let xb = { let m = b.iter().fold(0.0f64, |m, v| m.max(v.abs())).max(f64::MIN_POSITIVE); let xm = x.vec.iter().chain(&x0).fold(0.0f64, |m, v| m.max(v.abs())); (n as f64).sqrt() * xm / m };
+                let drift = crate::mon::c08::drift_units(sv) * U * (it as f64 + 1.0) * (sys.frob() * xb + 1.0);
+                let bound = 4.0 * (kf * (tol + drift) + 8.0 * n as f64 * kf * U);
                 st.max(&format!("direct_agreement_over_bound:{}", sv.name()), if bound > 0.0 { err / bound } else { 0.0 });
-                if !(err <= bound) { st.violation(&format!("C09:{}:disagrees-with-direct", sv.name()), format!("||x-x_direct||={:e} > {:e}; x={:?} x_direct={:?}; {}", err, bound, x.vec, xd, desc())); }
+                if !(err <= bound) { st.violation(&format!("C09:{}:disagrees-with-direct", sv.name()), format!("||x-x_direct||/||x_direct||={:e} > {:e}; x={:?} x_direct={:?}; {}", err, bound, x.vec, xd, desc())); }
                 // the budget only bounds the loop: exactly `it` iterations must suffice as well
                 if it > 0 && rng.chance(0.3) {
                     let mut x4 = Vector::create(x0.clone());
@@ -110,6 +136,60 @@ fn convergence_case(st: &mut Stats, rng: &mut Rng) {
         }
         st.sample(|| desc());
     }
+}
+
+/// One live Sparse object solved, edited in place (an EXISTING entry overwritten by insert, or the whole matrix scaled) and
+/// solved again: every solve must meet the convergence demands for the system the object holds at that moment
+/// (anything the object caches about itself must follow its edits).
+fn live_object_case(st: &mut Stats, rng: &mut Rng) {
+    let n = rng.usize(2, 30);
+    let symmetric = rng.bool();
+    let margin = *rng.pick(&[0.5, 2.0]);
+    let sys = gen_dominant(rng, n, symmetric, margin, false);
+    let mut d = sys.dense();
+    let mut a = match catch(|| sys.sparse(rng)) { Outcome::Ok(a) => a, _ => return };
+    let tol = rng.logpos(1e-10, 1e-4);
+    let mut log: Vec<String> = vec![format!("class={} n={} margin={} tol={:e} triplets={:?}", sys.class, n, margin, tol, sys.trip)];
+    for step in 0..rng.usize(2, 4) {
+        if step > 0 {
+            // an edit that keeps strict dominance (and symmetry): halve one stored off-diagonal pair, double a diagonal entry, or scale everything
+            match rng.below(3) {
+                0 => { let offs: Vec<(usize, usize)> = (0..n).flat_map(|i| (0..n).map(move |j| (i, j))).filter(|&(i, j)| i != j && d[i][j] != 0.0).collect();
+                       if let Some(&(i, j)) = offs.get(rng.below(offs.len().max(1) as u64) as usize) { let v = d[i][j] * 0.5; d[i][j] = v; log.push(format!("insert({},{},{:e}) [overwrite]", i, j, v)); if !catch(|| a.insert(i, j, v)).is_ok() { return; } if symmetric { d[j][i] = v; if !catch(|| a.insert(j, i, v)).is_ok() { return; } } } }
+                1 => { let i = rng.usize(0, n - 1); let v = d[i][i] * 2.0; d[i][i] = v; log.push(format!("insert({},{},{:e}) [overwrite diagonal]", i, i, v)); if !catch(|| a.insert(i, i, v)).is_ok() { return; } }
+                _ => { let c = *rng.pick(&[0.5, 2.0, 3.0]); for row in d.iter_mut() { for v in row.iter_mut() { *v *= c; } } log.push(format!("scale({})", c)); if !catch(|| a.scale(&c)).is_ok() { return; } }
+            }
+        }
+        let xs: Vec<f64> = (0..n).map(|_| rng.sym()).collect();
+        let b: Vec<f64> = (0..n).map(|i| (0..n).map(|j| d[i][j] * xs[j]).sum()).collect();
+        let xd = match direct_solution(&d, &b) { Some(x) => x, None => return };
+        let inv = match cp_inverse_real(&d) { Some(i) => i, None => return };
+        let kf = frob(&d) * frob(&inv);
+        let bv = Vector::create(b.clone());
+        let sv = loop { let s = *rng.pick(&SOLVERS); if applicable(s, symmetric) && !(s == Solver::Qmr && tol < QMR_MIN_TOL) { break s; } };
+        log.push(format!("solve[{}](b={:?})", sv.name(), b));
+        st.next_case();
+        let mut x = Vector::create(vec![0.0; n]);
+        st.eval();
+        match catch(|| sv.call(&a, &bv, &mut x, iter_cap(n), tol)) {
+            Outcome::Ok(Ok(it)) => {
+                let err = norm2(&x.vec.iter().zip(&xd).map(|(p, q)| p - q).collect::<Vec<_>>());
+                let drift = crate::mon::c08::drift_units(sv) * U * (it as f64 + 1.0) * (frob(&d) * (norm2(&x.vec) / norm2(&b).max(f64::MIN_POSITIVE)) + 1.0);
+                let bound = 4.0 * (kf * (tol + drift) + 8.0 * n as f64 * kf * U) * norm2(&xd);
+                if !(err <= bound) { st.violation(&format!("C09:{}:history:disagrees-with-direct", sv.name()), format!("||x-x_direct|| = {:e} > {:e} on the edited object; history {:?}", err, bound, log)); return; }
+                st.count(&format!("history-converged:{}", sv.name()));
+            }
+            Outcome::Ok(Err(e)) => {
+                // reproduce on a FRESH object holding the same entries: if that one converges, the live object is at fault
+                let mut t: Vec<(usize, usize, f64)> = vec![]; for i in 0..n { for j in 0..n { if d[i][j] != 0.0 { t.push((i, j, d[i][j])); } } }
+                let fresh = catch(|| { let f = Sparse::<f64>::from_triplets(n, n, &mut t); let mut xx = Vector::create(vec![0.0; n]); sv.call(&f, &bv, &mut xx, iter_cap(n), tol) });
+                if matches!(fresh, Outcome::Ok(Ok(_))) { st.violation(&format!("C09:{}:history:no-convergence-on-edited-object", sv.name()), format!("Err({:e}) within {} iterations on the live object, while a fresh object with the same entries converges; history {:?}", e, iter_cap(n), log)); return; }
+                st.count(&format!("isolated-breakdown:{}", sv.name()));
+            }
+            o => { st.violation(&format!("C09:{}:history:panic", sv.name()), format!("{}; history {:?}", o.describe(), log)); return; }
+        }
+    }
+    st.nontrivial(hmix(hash_str("c09-live-object"), rng.u64()));
 }
 
 /// zero right-hand side with a NON-zero guess: the well-posed system A x = 0 has the solution 0, the solvers measure the
@@ -204,9 +284,9 @@ fn degenerate_case(st: &mut Stats, rng: &mut Rng) {
 
 pub fn run(ctx: &Ctx) -> Report {
     let units = ctx.vol(30_000, 1_200_000);
-    let stats = par_run(ctx, TAG, units, |_u, rng, st| { for _ in 0..3 { convergence_case(st, rng); } degenerate_case(st, rng); degenerate_case(st, rng); zero_rhs_case(st, rng); });
+    let stats = par_run(ctx, TAG, units, |_u, rng, st| { for _ in 0..3 { convergence_case(st, rng); } degenerate_case(st, rng); degenerate_case(st, rng); zero_rhs_case(st, rng); live_object_case(st, rng); });
     let mut rep = Report::new(stats,
-        "certified well-posed systems of order 1..60: symmetric strictly diagonally dominant with positive diagonal (SPD; all five variants) and strictly row-dominant nonsymmetric with mixed-sign diagonal (BiCG both error measures, BiCGSTAB, QMR), dominance margins {0.02,0.1,0.5,2}, global matrix scales 1e+-3, 2^+-70, 2^+-100, rhs from a planted solution of scale 1, 1e3, 1e+-8, 1e-18, 1e+-30, 1e+-60, x0 zero/random/scaled, tol log-uniform 1e-12..1e-3 (QMR demanded for tol>=1e-8 only), budget 10n+100, shuffled triplets. Judged: Ok within the budget, finite x, agreement with Matrix::solve_basic within kappa_F*(tol+drift). Zero right-hand side with a non-zero guess (scales 1e-3..1e6, attainable tolerances only): Ok must leave ||x|| within ||A^-1||_F (tol + drift) of the solution 0. Budget metamorphism: a run that converged in k iterations is repeated with max_iter = k and must answer Ok(k) with the same x. Degenerate starts on integer data: exact initial guess (b=A*x0 exactly) and zero rhs with zero guess must be accepted (Ok), x finite and still a solution. Non-trivial: n>=2 and a judged Ok/degenerate outcome; distinct = distinct (solver,entries,tol) hashes");
+        "certified well-posed systems of order 1..60: symmetric strictly diagonally dominant with positive diagonal (SPD; all five variants) and strictly row-dominant nonsymmetric with mixed-sign diagonal (BiCG both error measures, BiCGSTAB, QMR), dominance margins {0.02,0.1,0.5,2}, global matrix scales 1e+-3, 2^+-70, 2^+-100, rhs from a planted solution of scale 1, 1e3, 1e+-8, 1e-18, 1e+-30, 1e+-60, x0 zero/random/scaled, tol log-uniform 1e-12..1e-3 (QMR demanded for tol>=1e-8 only), budget 10n+100, shuffled triplets. Judged: Ok within the budget, finite x, agreement with Matrix::solve_basic within kappa_F*(tol+drift). Zero right-hand side with a non-zero guess (scales 1e-3..1e6, attainable tolerances only): Ok must leave ||x|| within ||A^-1||_F (tol + drift) of the solution 0. Live-object histories: one Sparse object solved, edited in place (insert over an existing entry, scale) and solved again, each solve judged for the system held at that moment. Right-hand sides moved into the top binade [2^1023,2^1024) or down to 2^-1000. Budget metamorphism: a run that converged in k iterations is repeated with max_iter = k and must answer Ok(k) with the same x. Degenerate starts on integer data: exact initial guess (b=A*x0 exactly) and zero rhs with zero guess must be accepted (Ok), x finite and still a solution. Non-trivial: n>=2 and a judged Ok/degenerate outcome; distinct = distinct (solver,entries,tol) hashes");
     rep.assumptions = vec![
         "iteration cap 10n+100 (measured worst 3.4*(n+10) over 1.5 M solves)".into(),
         "a convergence failure is reported only if at least 2 of 3 fresh right-hand sides on the same matrix fail too (isolated Lanczos breakdowns are logged, not flagged)".into(),
